@@ -58,6 +58,10 @@ Definition encode_header (text : list Z) (refs : list (list Z * Z)) : list Z :=
 Definition encode_file (text : list Z) (refs : list (list Z * Z)) (rs : list brec) : list Z :=
   encode_header text refs ++ encode_recs rs.
 
+(* the records with the given numbers, in that order (a filtered or reordered write) *)
+Definition select {A} (l : list A) (idx : list Z) : list A :=
+  flat_map (fun i => match nth_error l (Z.to_nat i) with Some x => [x] | None => [] end) idx.
+
 (* validity of a record (the ranges of SAMv1 4.2) as a decidable predicate *)
 Definition in_range (lo hi x : Z) : bool := (lo <=? x) && (x <? hi).
 Definition rec_okb (nrefs : Z) (r : brec) : bool :=
@@ -223,6 +227,17 @@ Definition read_whole_buf (body : list Z) : option buf :=
   match body with
   | [] => Some {| bf_data := []; bf_starts := []; bf_ends := [] |}   (* read() returns the empty dataclass *)
   | _ => from_raw_buffer (add_newline body)
+  end.
+
+(* bnp.open(p).read() up to field decoding: (reference names, header bytes as replayed on write, buffer) *)
+Definition read_file (st : list Z) : option (list (list Z) * list Z * buf) :=
+  match parse_header st with
+  | None => None
+  | Some (refs, off) =>
+      match read_whole_buf (skipn (Z.to_nat off) st) with
+      | None => None
+      | Some b => Some (map fst refs, firstn (Z.to_nat off) st, b)
+      end
   end.
 
 (* --- chunked reading of a gzip stream: NumpyFileReader.read_chunk in prepend mode, driven by
